@@ -16,6 +16,42 @@ var props = map[string]propCfg{
 		Stub:      []string{"map and reduce functions are harness functions with their own park points"},
 		Assume:    []string{"interleavings are explored at the granularity of the H1 yield points plus the park points inside the harness map/reduce functions; races between statements without a yield between them are only visible to the race detector (thorough tier)"},
 	},
+	"C01": {
+		Level:     "exploration",
+		Technique: "deterministic simulation: real gateway (merge, plan, execute, scrub) over simulated services on a simulated transport, seeded schedule of fan-out workers / answer deliveries / plan-step order, differential oracle = single-server reference executor over the union schema and the same data function",
+		Rule:      "a case = (generated world: union schema projected on 1-4 services + data salt, gateway configuration, 1-3 generated operations with variables, schedule); non-trivial when at least one cross-service stitch step was planned and the answer was compared with the reference; distinct by hash of (schemas, data salt, operations, configuration, schedule trace)",
+		Quick:     tierCfg{Runs: 6000, Budget: 60 * time.Second, Chunk: 250},
+		Thorough:  tierCfg{Runs: 400000, Budget: 12 * time.Minute, Chunk: 1000},
+		Real:      realFED, Stub: stubFED,
+		Assume:    []string{"generated schemas follow pebbles' documented federation contract (README)", "operation features that hit an open known finding are switched off in the sampled workload and exercised only by that finding's dedicated replay (see known_findings.json and DESIGN.md sec. 9)", "the reference executor and the service executor share code; they share no stitching code with pebbles"},
+	},
+	"C02": {
+		Level:     "exploration",
+		Technique: "deterministic simulation: wire invariant evaluated on every sub-request a simulated service receives (gqlparser validation against the service's own schema, variable coercion, effective variable values) plus per-translation coverage/helper bookkeeping check on the recorded plan",
+		Rule:      "a case = (world, gateway configuration, operations, schedule) as for C01; non-trivial when a cross-service stitch step was planned and at least one sub-request was validated; distinct by the same hash",
+		Quick:     tierCfg{Runs: 6000, Budget: 60 * time.Second, Chunk: 250},
+		Thorough:  tierCfg{Runs: 400000, Budget: 12 * time.Minute, Chunk: 1000},
+		Real:      realFED, Stub: stubFED,
+		Assume:    []string{"validation oracle = gqlparser's validator against the service's own generated schema", "coverage of fields selected under interface/union parents is decided dynamically by C01's comparison, not by the static walk"},
+	},
+	"C12": {
+		Level:     "exploration",
+		Technique: "deterministic simulation: counting wrapper at the queryer.Queryer seam records calls per service per client operation; history check against the number of plan levels, duplicate-lookup check inside each call, C01 comparison on the same run",
+		Rule:      "a case = (world with long / uneven lists and only 2 entities per type so that repeats are frequent, configuration, operations, schedule); non-trivial when a cross-service stitch step was planned and calls were counted; distinct by the same hash as C01",
+		Quick:     tierCfg{Runs: 6000, Budget: 60 * time.Second, Chunk: 250},
+		Thorough:  tierCfg{Runs: 400000, Budget: 12 * time.Minute, Chunk: 1000},
+		Real:      realFED, Stub: stubFED,
+		Assume:    []string{"levels = depths of the recorded plan tree at which a service URL appears"},
+	},
+	"C13": {
+		Level:     "exploration",
+		Technique: "deterministic simulation: one operation sent k times to one gateway, each repetition under a freshly drawn schedule policy and plan-step permutation (hook H2), content-keyed service failures in a third of the runs; oracle = all repetitions agree on data, on the multiset of errors and on the multiset of sub-requests per service",
+		Rule:      "a case = (world, configuration, one operation, k schedules, poison level); non-trivial when a stitch step was planned, all k repetitions completed and at least two different delivery orders were observed; distinct by hash of (schemas, operation, configuration, schedule trace)",
+		Quick:     tierCfg{Runs: 2500, Budget: 60 * time.Second, Chunk: 100},
+		Thorough:  tierCfg{Runs: 120000, Budget: 12 * time.Minute, Chunk: 400},
+		Real:      realFED, Stub: stubFED,
+		Assume:    []string{"Go map iteration inside pebbles cannot be seeded; order dependence that only changes an outcome is detected with probability 1-2^-(k-1) per run by the k-fold repetition"},
+	},
 	"C11": {
 		Level:     "exploration",
 		Technique: "deterministic simulation: real MultiOpQueryer on a simulated transport, seeded completion orders of the concurrent chunk calls and of the nested AsyncMapReduce yields, fault injection per chunk call, oracle = sequential specification (N results in request order, each request in exactly one call, <= m per call, error and no partial result on failure)",
@@ -29,6 +65,10 @@ var props = map[string]propCfg{
 }
 
 var expectedProbes = map[string][]string{
+	"C01": {"fed.cross-service-stitch", "fed.stitch-depth>=3", "fed.node-lookup", "fed.answers-overtook", "fed.plan-order-draws", "fed.chunked-downstream-call"},
+	"C02": {"fed.cross-service-stitch", "fed.node-lookup", "op.variable", "op.variable-omitted", "op.variable-in-input"},
+	"C12": {"fed.cross-service-stitch", "c12.batched-lookups-in-one-call", "c12.same-entity-repeated-in-a-list"},
+	"C13": {"det.repetitions", "det.distinct-delivery-orders", "det.errors-nonempty-case", "det.plan-order-draws"},
 	"C11": {"qry.chunked", "qry.boundary-N=k*m", "qry.boundary-N=k*m+1", "qry.boundary-N=k*m-1", "qry.answers-overtook", "qry.failed-call", "qry.files"},
 	"C20": {"amr.errors-and-results", "amr.all-errors", "amr.nested", "amr.empty"},
 }
